@@ -168,10 +168,11 @@ func doXRing(f []string) string {
 	r.Set(members)
 	out := seg()
 	if rm >= 0 && rm < nm {
+		// the members reach set() in map iteration order: rebuild in a different (reversed) order
 		var rest []string
-		for i, m := range members {
+		for i := len(members) - 1; i >= 0; i-- {
 			if i != rm {
-				rest = append(rest, m)
+				rest = append(rest, members[i])
 			}
 		}
 		r.Set(rest)
